@@ -46,9 +46,10 @@ def compute(prog):
 
 def get(prog):
     cache = os.path.join(prog.dir, "grammar_ai.pkl")
-    src = os.path.join(os.path.dirname(os.path.abspath(__file__)), "parser_ai.py")
-    if os.path.exists(cache) and os.path.getmtime(cache) >= os.path.getmtime(src) and \
-            os.path.getmtime(cache) >= os.path.getmtime(os.path.abspath(__file__)):
+    here = os.path.dirname(os.path.abspath(__file__))
+    deps = [os.path.join(here, f) for f in ("parser_ai.py", "grammar_facts.py", "facts.py", "inline.py", "renames.py",
+                                            "anchors.json", "paths.py", "cfg.py")]
+    if os.path.exists(cache) and all(os.path.getmtime(cache) >= os.path.getmtime(f) for f in deps if os.path.exists(f)):
         try:
             with open(cache, "rb") as fh:
                 return pickle.load(fh)
